@@ -34,6 +34,17 @@ class WallClockStall(BaseException):
 # logical clock (sys.monitoring): counts function starts and backward jumps inside pdpy11/
 # raises exactly once, never at the start of an __enter__/__exit__ frame (see DESIGN 2.3)
 
+MEM_GUARD_PAGES = 400_000      # about 1.6 GB of growth during ONE assembly
+
+
+def _rss_pages():
+    try:
+        with open("/proc/self/statm", encoding="ascii") as f:
+            return int(f.read().split()[1])
+    except (OSError, ValueError, IndexError):
+        return 0
+
+
 class Clock:
     TOOL = 4  # a free tool id (0..5); 2 = profiler, 1 = coverage, 0 = debugger
 
@@ -43,6 +54,8 @@ class Clock:
         self.fired = False
         self.installed = False
         self.abort_stack = []
+        self.mem_limit = None
+        self.mem_fired = False
 
     def install(self):
         if self.installed:
@@ -57,6 +70,10 @@ class Clock:
         if not code.co_filename.startswith(PKG_DIR):
             return sys.monitoring.DISABLE
         self.count += 1
+        if (self.count & 0x3FFFF) == 0 and self.mem_limit and not self.fired and _rss_pages() > self.mem_limit:
+            # an assembly that keeps allocating without end is stopped like one that keeps running without end
+            self.mem_fired = True
+            self.budget = 0
         if self.budget is not None and self.count > self.budget and not self.fired:
             if code.co_name in ("__enter__", "__exit__"):
                 return None
@@ -74,6 +91,10 @@ class Clock:
         if not code.co_filename.startswith(PKG_DIR):
             return sys.monitoring.DISABLE
         self.count += 1
+        if (self.count & 0x3FFFF) == 0 and self.mem_limit and not self.fired and _rss_pages() > self.mem_limit:
+            # an assembly that keeps allocating without end is stopped like one that keeps running without end
+            self.mem_fired = True
+            self.budget = 0
         if self.budget is not None and self.count > self.budget and not self.fired:
             if code.co_name in ("__enter__", "__exit__"):
                 return None
@@ -94,6 +115,8 @@ class Clock:
         self.count = 0
         self.budget = budget
         self.fired = False
+        self.mem_fired = False
+        self.mem_limit = _rss_pages() + MEM_GUARD_PAGES
         mon.set_events(self.TOOL, mon.events.PY_START | mon.events.JUMP)
         try:
             yield self
